@@ -27,6 +27,9 @@ def is_view(cs):
         return True  # the crate's AsRef / AsMut / Borrow / BorrowMut<[T]>: modelled as the full view (their bodies: C02.D / C13.B)
     if cs.key in ("GenericArray<$0,$1>::slice_from_chunks", "GenericArray<$0,$1>::slice_from_chunks_mut") and cs.ret is not None and cs.ret[0] == "P":
         return True  # the flattening views: modelled as (same address, len * N elements), verified against their bodies by check_views
+    if cs.fn in ("core::slice::from_raw_parts", "core::slice::from_raw_parts_mut", "core::ptr::slice_from_raw_parts", "core::ptr::slice_from_raw_parts_mut") \
+            and cs.ret is not None and cs.ret[0] == "P" and cs.ret[3] is not None:
+        return True  # a slice pointer put together from a pointer and a length: address and length are carried by the pointer value itself
     if cs.fn in ("core::slice::from_ref", "core::slice::from_mut") and cs.ret is not None and cs.ret[0] == "P":
         return True  # the one-element slice over the referent
     if cs.key == "GenericArray<$0,$1>::len":
